@@ -153,7 +153,7 @@ def check_series(vals, shape, scale_checks=True):
     except Exception as ex:
         msgs.append("series-valued metric raised %r on %s (%s)" % (ex, list(vals), shape))
     # DataFrame with a second (reversed) column
-    if not msgs and not (len(SCALES[0]) == 2 and n >= 4):
+    if not msgs and not (n >= (4 if len(SCALES[0]) == 2 else 5)):
         rv = list(vals)[::-1]
         df = pd.DataFrame({"a": list(vals), "b": rv}, index=pd.DatetimeIndex(stamps))
         refb, _, _, _ = ref_metrics(rv, stamps)
@@ -216,7 +216,7 @@ def check_series(vals, shape, scale_checks=True):
         except Exception as ex:
             msgs.append("tracking_error raised %r" % (ex,))
     # scale invariance
-    if scale_checks and not msgs and not (len(SCALES[0]) == 2 and n >= 4):
+    if scale_checks and not msgs and not (n >= (4 if len(SCALES[0]) == 2 else 5)):
         for c in SCALES[0]:
             for k in METRICS:
                 try:
@@ -372,6 +372,8 @@ def run(tier, **kw):
         for vals in itertools.product(ALPHA, repeat=L):
             for shape in SHAPES:
                 if tier == "quick" and L == 4 and shape not in ("daily", "intraday"):
+                    continue
+                if L == 5 and shape not in ("daily", "intraday", "month"):
                     continue
                 cases.append(("metrics", vals, shape))
     for L in range(2, (3 if tier == "quick" else 4) + 1):
